@@ -23,7 +23,7 @@ RULE = ('(a) totality: phredToFastqHeaderSafeQualities / fastqHeaderSafeQualitie
         'within 15 characters of the limit; distinct = distinct (strategy, library, pair id).')
 ASSUMPTIONS = ['pysam BAM writing/reading is the storage; its own refusal of names > 254 characters counts as a loud refusal',
                'expected field values come from the raw reads through the hand-written layout table and the independent 52-letter code']
-MIN_NONTRIVIAL = {'quick': 300, 'thorough': 5000}
+MIN_NONTRIVIAL = {'quick': 300, 'thorough': 30000}
 REQUIRED_MONITORS = ['totality:single_chars', 'totality:pairs', 'roundtrip:reads_decoded', 'roundtrip:fields_compared',
                      'length:refused_loudly', 'length:stored_exactly']
 SHARD_TIMEOUT = {'quick': 600, 'thorough': 3600}
@@ -32,7 +32,7 @@ PHRED_TAGS = {'QX', 'QT', 'RQ', 'BZ', 'QM', 'lq', 'aQ', 'AQ', 'E2', 'EQ', 'eq', 
 
 def gen_cases(tier, seed):
     cases = [{'kind': 'totality'}]
-    reps = 1 if tier == 'quick' else 6
+    reps = 1 if tier == 'quick' else 30
     for name in LY.ALL_NAMES:
         for rep in range(reps):
             cases.append({'kind': 'roundtrip', 'strategy': name, 'rep': rep, 'seed': seed, 'n': 60 if tier == 'quick' else 200})
